@@ -1,10 +1,13 @@
 #!/bin/bash
 # usage: try_mutant.sh <patch.diff> <Cxx> [Cyy ...]   -- applies the patch to /repo, runs the quick checks, reverts
+# (the evidence files written under the mutant are discarded: evidence/ is restored afterwards)
 P=$1; shift
 git -C /repo apply "$P" || { echo "patch does not apply"; exit 3; }
+SAVE=$(mktemp -d /tmp/evsave.XXXX); cp -a /verif/evidence/. $SAVE/
 for id in "$@"; do
   timeout 1800 /verif/hc.py check $id --tier ${TIER:-quick} 2>&1 | grep -v "conda\|Conda\|PermissionError\|^$" | tail -6
   echo "== $id rc=${PIPESTATUS[0]}"
 done
 git -C /repo checkout -- . 
 git -C /repo status --short | head -3
+cp -a $SAVE/. /verif/evidence/; rm -rf $SAVE
